@@ -31,6 +31,10 @@
   appended), `tsWrite` (the write takes effect), `tsDone` (it returns); the simulation runs the real callback in a
   helper thread parked before and after the write.
 
+  Leaving and re-entering the context (`MainOp.reenter`) is a no-op on this state: `__enter__` uses
+  `tty.setcbreak(stream, termios.TCSANOW)`; the model has no notion of tcsetattr's `when` - that entering must not
+  discard input the tty has received (TCSAFLUSH would) is checked by the simulation's fake termios and by the real-pty
+  scenarios, not proved.
   ASSUMPTIONS of the model (not provable here): list append/pop are atomic (GIL) - the model cannot
   preempt the main thread inside one statement; signal delivery = one wake-up byte + the Python
   handler, both at the agenda item's time; `select` reports descriptors in the order of its input
@@ -310,6 +314,7 @@ def send (P : Params) (gk : List Nat → Bool → Except PyErr (Option κ)) (val
 inductive MainOp where
   | request (timeout : Option Time)
   | advance (dt : Nat)
+  | reenter          -- the application leaves the Input context and enters it again: nothing pending is touched
   deriving Repr
 
 /-- fuel for the wait loop of one request: one round per wake-up/pipe byte that exists or can still arrive -/
@@ -323,6 +328,7 @@ def run (P : Params) (gk : List Nat → Bool → Except PyErr (Option κ)) (val 
   | .advance dt :: ops, st, ag =>
     let (st, ag) := advance P st ag dt
     run P gk val ops st ag
+  | .reenter :: ops, st, ag => run P gk val ops st ag
   | .request t :: ops, st, ag =>
     match send P gk val (waitFuelFor st ag) st ag t with
     | (.error .blockedForever, st, ag) => ([.error .blockedForever], st, ag)
